@@ -7,13 +7,15 @@ Plan(pw, cid, s, idu, ids, ksf) == [pw1 |-> A(pw), pw2 |-> A(pw), cid |-> A(cid)
                                     idu |-> idu, ids |-> ids, ksf |-> ksf]
 One == {NoneV}
 Ksf_SetupPlan == << [op |-> "new", tape |-> 1] >>
-Ksf_RegPlan == << Plan(1, 11, 1, NoneV, NoneV, 99), Plan(1, 12, 1, NoneV, NoneV, 99) >>
+\* two registrations of the same password under the SAME credential identifier (their masking keys
+\* are equal exactly when their KSF instances are) and one under another identifier
+Ksf_RegPlan == << Plan(1, 11, 1, NoneV, NoneV, 99), Plan(1, 11, 1, NoneV, NoneV, 99), Plan(1, 12, 1, NoneV, NoneV, 0) >>
 Ksf_RegIdus == One
 Ksf_RegIdss == One
-Ksf_RegKsfs == {0, 1, 2, 3}
+Ksf_RegKsfs == {0, 1, 2}
 Ksf_CliPw   == [c \in CliIds |-> <<A(1), A(1)>>]
 Ksf_SrvSetups == {1}
-Ksf_SrvRecs == {1, 2}
+Ksf_SrvRecs == {1, 2, 3}
 Ksf_SrvCids == {A(11), A(12)}
 Ksf_SrvCtxs == One
 Ksf_SrvIdus == One
